@@ -2,16 +2,16 @@ SPECIFICATION Spec
 CONSTANTS
   Ads = {"cbawait", "cbawait_v", "mkprom", "discard", "callfn", "conv_mem", "conv_mem_v", "conv_pp", "conv_pp_v", "conv_free", "conv_free_ctx"}
   Allocs = {"heap", "counting"}
-  Grain = "atomic"
+  Grain = "fine"
   Ctxs = {"plain"}
   ArgKinds = {"temp"}
-  Res = {"r1", "r2"}
+  Res = {"r1"}
   Outcomes = {"val", "exc", "drop"}
   MaxRounds = 1
   FixVoidSrc = TRUE
   ArmLate = {}
-  RegCtxs = {"plain"}
-  ResCtxs = {"plain"}
+  RegCtxs = {"plain", "guard"}
+  ResCtxs = {"plain", "guard", "handler", "scope", "local"}
   SkipUnwinding = {}
   ArgsByRef = FALSE
 INVARIANTS TypeOK CallbackOnce RightOutcome HelperFreedOnce ConvertedValueOrException PublishedResumable ArgsAsPassed NoStuckState
